@@ -22,8 +22,10 @@ Python only transports values (eighths -> floats, building arguments, comparing)
 from __future__ import annotations
 
 import copy
+import json
 import random
 import time
+import traceback
 
 import numpy as np
 
@@ -240,7 +242,9 @@ def project(ds0, DesignSpace, state, view):
         except Exception as ex:  # noqa: BLE001  (an exception on a query the specification allows)
             fails.append((name, {"exception": type(ex).__name__, "message": str(ex)[:300]}))
             return
-        if r is not True:
+        if isinstance(r, dict):
+            fails.append((name, r))
+        elif r is not True:
             fails.append((name, {"got": r}))
 
     def eq(actual, expected):
@@ -350,7 +354,18 @@ def project(ds0, DesignSpace, state, view):
     clause("unnormalize_vect_2d", unnorm_2d)
     gs = [vec(g) for g in view["gs"]]
     clause("normalize_grad", lambda: arr(ds.normalize_grad(gs[0]), view["ng"][0]))
-    clause("normalize_grad_frac", lambda: arr(ds.normalize_grad(gs[1]), view["ng"][1]))
+
+    def grad_frac():
+        got = np.asarray(ds.normalize_grad(gs[1]), dtype=float)
+        if same(got, view["ng"][1]):
+            return True
+        # diagnostic for the signature: the only difference is that integer components were rounded
+        exp = vec(view["ng"][1])
+        only_rounded = got.shape == exp.shape and all(
+            a == e or (i and a == np.round(e)) for a, e, i in zip(got, exp, view["isint"]))
+        return {"got": repr(got.tolist()), "sig": {"only_integer_components_rounded": bool(only_rounded)}}
+
+    clause("normalize_grad_frac", grad_frac)
     ugdef = list(view["ugdef"])
     for p, g in enumerate(gs):
         clause("unnormalize_grad", lambda p=p, g=g: True if same_where(ds.unnormalize_grad(g), view["ug"][p], ugdef)
@@ -441,7 +456,7 @@ def step_facts(act, args, src):
 
 def tier_constants(ck: Check):
     if ck.thorough:
-        return dict(nnames=3, maxvars=2, templates=[1, 2, 3, 5], lbvals=[16], ubvals=[16], infbounds=True,
+        return dict(nnames=4, maxvars=3, templates=[1, 2, 3, 5], lbvals=[16], ubvals=[16], infbounds=True,
                     cur=["lo", "hi"], level=5, vias=["add", "extend", "from"], forms=["array", "dict"],
                     qkinds=["normalize", "unnormalize", "round", "project"])
     return dict(nnames=3, maxvars=2, templates=[1, 2], lbvals=[16], ubvals=[16], infbounds=True,
@@ -449,29 +464,105 @@ def tier_constants(ck: Check):
                 qkinds=["normalize", "project"])
 
 
+def views_for(ck: Check, c, states, tag):
+    """Expected views, computed by TLC (DesignSpaceViews), for a list of abstract states (vars, intNorm)."""
+    f = ck.work / f"states-{tag}.json"
+    f.write_text(json.dumps([{"vars": st[0], "intNorm": st[1]} for st in states]))
+    cfg = constants(c) + "INIT VInit\nNEXT VNext\nCHECK_DEADLOCK FALSE\n"
+    for i in ABS_INVS + ["EmitIdx"]:
+        cfg += f"INVARIANT {i}\n"
+    r = ck.tlc("DesignSpaceViews", cfg, workers=1, timeout=1500, coverage=False, count=False,
+               env={"STATES_FILE": str(f)})
+    out = {}
+    for v in r.printed():
+        if isinstance(v, tuple) and len(v) == 3 and v[0] == "VIEW":
+            out[_freeze(states[v[1] - 1])] = v[2]
+    if len(out) != len(states):
+        raise MachineryError(f"{len(out)} views for {len(states)} abstract states ({tag})")
+    return out
+
+
+class Replayer:
+    """Steps real design spaces through behaviours of DesignSpaceImpl and compares after every step."""
+
+    def __init__(self, ck, DesignSpace, views):
+        self.ck, self.DS, self.views = ck, DesignSpace, views
+        self.checked = set()
+        self.bad = set()
+        self.n_proj = self.n_resync = self.n_steps = 0
+
+    def resync(self, dst, view):
+        ds = build(self.DS, dst)
+        fill_caches(ds, dst, view)
+        self.n_resync += 1
+        return ds
+
+    def run(self, steps, source):
+        """steps: list of (key, act, args, src_state, dst_state); key identifies a transition of the graph
+        (projected the first time it is taken) or is None (always projected)."""
+        ck = self.ck
+        ds = self.DS()
+        hist = []
+        for key, act, args, src, dst in steps:
+            view = self.views[absstate(dst)]
+            lab = act + ("(" + ", ".join(fmt_arg(a) for a in args) + ")" if args else "")
+            hist.append(lab)
+            self.n_steps += 1
+            if key is not None and key in self.bad:
+                # this transition is already reported: continue from a rebuilt object in the target state
+                ds = self.resync(dst, view)
+                continue
+            fails = []
+            sig = dict({"op": act}, **step_facts(act, args, src))
+            try:
+                apply_action(ds, self.DS, act, args, src, dst, view, fails)
+            except Exception as ex:  # noqa: BLE001  gemseo raised on an operation the specification allows
+                fails = [("raises", {"exception": type(ex).__name__, "message": str(ex)[:300],
+                                     "traceback": traceback.format_exc(limit=5)})]
+            else:
+                if key is None or key not in self.checked:
+                    fails += project(ds, self.DS, dst, view)
+                    self.n_proj += 1
+            if key is not None:
+                self.checked.add(key)
+            if fails:
+                if key is not None:
+                    self.bad.add(key)
+                for cl, det in fails:
+                    s = dict(sig, clause=cl)
+                    if "exception" in det:
+                        s["exception"] = det["exception"]
+                    s.update(det.pop("sig", {}))
+                    ck.violation(cl, s, {"source": source, "history": list(hist), "step": lab,
+                                         "expected_state": {"vars": dst["vars"], "intNorm": dst["intNorm"]},
+                                         "cache_state_before": {kk: src[kk] for kk in ("normValid", "curArrC", "normCurC")},
+                                         **det})
+                ds = self.resync(dst, view)
+        ck.traces += 1
+        return hist
+
+
+EMPTY = {"vars": (), "intNorm": False, "normValid": False, "curArrC": (), "normCurC": ()}
+
+
 def run(ck: Check):
     from gemseo.algos.design_space import DesignSpace
 
     rng = random.Random(ck.seed)
     c = tier_constants(ck)
-
-    # ---- 1. abstract module: algebra of the property + the expected views of every state
     timing = {}
+
+    # ---- 1. abstract module: the algebra of the property on every state x probe within the bounds
     t0 = time.time()
-    r = ck.tlc("DesignSpace", abs_cfg(c), workers=1, timeout=1500, coverage=False)
-    timing["abstract_tlc_s"] = round(time.time() - t0, 1)
-    t0 = time.time()
-    views = {}
-    for v in r.printed():
-        if isinstance(v, tuple) and len(v) == 4 and v[0] == "VIEW":
-            views[_freeze((v[1], v[2]))] = v[3]
-    if len(views) < r.distinct:  # (TLC also evaluates invariants on the states just beyond the depth bound)
-        raise MachineryError(f"{len(views)} views parsed for {r.distinct} abstract states")
+    r = ck.tlc("DesignSpace", abs_cfg(c, emit=False), workers=8, timeout=1500,
+               require_actions=("Add", "SetLB", "SetUB", "FilterDims", "SetCurVar", "ToggleIntNorm"))
     ck.extra["abstract_states"] = r.distinct
-    timing["views_parse_s"] = round(time.time() - t0, 1)
+    timing["abstract_tlc_s"] = round(time.time() - t0, 1)
 
     # ---- 2. the invariants are not vacuous: the rules as coded are refuted at specification level
-    small = dict(c, level=6, templates=[1, 2], cur=["hi"], vias=["add"], forms=["array"], qkinds=["normalize"])
+    t0 = time.time()
+    small = dict(c, nnames=3, maxvars=2, level=6, templates=[1, 2], cur=["hi"], vias=["add"], forms=["array"],
+                 qkinds=["normalize"])
     refuted = {}
     for d, inv in REFUTE.items():
         rr = ck.tlc("DesignSpaceImpl", impl_cfg(small, as_coded=[d]), workers=4, timeout=600, expect_ok=False,
@@ -480,84 +571,90 @@ def run(ck: Check):
             raise MachineryError(f"rule as coded ({d}) should refute {inv}; TLC says {rr.violated}")
         refuted[d] = [a for a, _ in rr.counterexample()][1:]
     ck.extra["as_coded_rules_refuted"] = {d: {"invariant": REFUTE[d], "history": h} for d, h in refuted.items()}
+    timing["refutations_s"] = round(time.time() - t0, 1)
 
     # ---- 3. implementation-shaped module: coherence + refinement, labelled state graph
-    r = ck.tlc("DesignSpaceImpl", impl_cfg(c), workers=8, timeout=1500, dump=True)
-    t_graph = time.time()
+    # (one worker: with several, the BFS level of a state - hence the depth-bounded graph - depends on scheduling)
+    t0 = time.time()
+    r = ck.tlc("DesignSpaceImpl", impl_cfg(c), workers=1, timeout=1500, dump=True)
+    timing["impl_tlc_s"] = round(time.time() - t0, 1)
+    t0 = time.time()
     g = Graph(ck.work / "DesignSpaceImpl.dot")
     canonical(g)
+    if len(g.states) != r.distinct:
+        raise MachineryError(f"graph has {len(g.states)} states, TLC found {r.distinct}")
     # vacuity: every action of the module labels at least one transition of the graph
     # (TLC's per-action count of NEW states is 0 for actions whose targets are always found first by another one)
     present = {e[2] for e in g.edges}
     for a in MUTATORS + QUERIES:
         if a not in present:
             raise MachineryError(f"vacuity: action {a} of DesignSpaceImpl labels no transition")
-    if len(g.states) != r.distinct:
-        raise MachineryError(f"graph has {len(g.states)} states, TLC found {r.distinct}")
-    for st in g.states.values():
-        if absstate(st) not in views:
-            raise MachineryError("an abstract state of the Impl graph has no view from the abstract module")
     tour = g.tour()
-    timing["graph_parse_and_tour_s"] = round(time.time() - t_graph, 1)
-    t_replay = time.time()
+    timing["graph_parse_and_tour_s"] = round(time.time() - t0, 1)
     ck.extra["impl_graph"] = {"states": len(g.states), "edges": len(g.edges), "tour_paths": len(tour),
                               "tour_steps": sum(len(p) for p in tour)}
 
-    # ---- 4. replay the tour on real design spaces
-    checked: set[int] = set()
-    bad: set[int] = set()
-    n_proj = n_resync = n_steps = 0
+    # ---- 4. expected views of the abstract states of the graph, computed by TLC
+    t0 = time.time()
+    abs_states = {}
+    for st in g.states.values():
+        abs_states.setdefault(absstate(st), (st["vars"], st["intNorm"]))
+    views = views_for(ck, c, list(abs_states.values()), "graph")
+    timing["views_s"] = round(time.time() - t0, 1)
+    ck.extra["impl_graph"]["abstract_states"] = len(abs_states)
+
+    # ---- 5. replay the transition tour on real design spaces
+    t0 = time.time()
+    rp = Replayer(ck, DesignSpace, views)
     for path in tour:
-        ds = DesignSpace()
-        hist = []
-        for k in path:
-            src_id, dst_id, act, args = g.edges[k]
-            src, dst = g.states[src_id], g.states[dst_id]
-            view = views[absstate(dst)]
-            hist.append(label(g.edges[k]))
-            n_steps += 1
-            if k in bad:
-                # this transition is already reported: continue from a rebuilt object in the target state
-                ds = build(DesignSpace, dst)
-                fill_caches(ds, dst, view)
-                n_resync += 1
-                continue
-            fails = []
-            sig = dict({"op": act}, **step_facts(act, args, src))
-            try:
-                apply_action(ds, DesignSpace, act, args, src, dst, view, fails)
-            except Exception as ex:  # noqa: BLE001  gemseo raised on an operation the specification allows
-                import traceback
-                fails = [("raises", {"exception": type(ex).__name__, "message": str(ex)[:300],
-                                     "traceback": traceback.format_exc(limit=5)})]
-            else:
-                if k not in checked:
-                    fails += project(ds, DesignSpace, dst, view)
-                    n_proj += 1
-            checked.add(k)
-            if fails:
-                bad.add(k)
-                for cl, det in fails:
-                    s = dict(sig, clause=cl)
-                    if "exception" in det:
-                        s["exception"] = det["exception"]
-                    ck.violation(cl, s, {"history": list(hist), "step": label(g.edges[k]),
-                                         "expected_state": {"vars": dst["vars"], "intNorm": dst["intNorm"]},
-                                         "cache_state_before": {kk: src[kk] for kk in ("normValid", "curArrC", "normCurC")},
-                                         **det})
-                ds = build(DesignSpace, dst)
-                fill_caches(ds, dst, view)
-                n_resync += 1
-        ck.traces += 1
+        steps = [(k, g.edges[k][2], g.edges[k][3], g.states[g.edges[k][0]], g.states[g.edges[k][1]]) for k in path]
+        hist = rp.run(steps, "tour")
         if rng.random() < 0.01 or len(ck.samples) < 3:
             ck.sample({"tour_path": hist[:12]})
-    if len(checked) != len(g.edges):
-        raise MachineryError(f"tour covered {len(checked)} of {len(g.edges)} transitions")
+    if len(rp.checked) != len(g.edges):
+        raise MachineryError(f"tour covered {len(rp.checked)} of {len(g.edges)} transitions")
     ck.exhaustive = True
-    timing["replay_s"] = round(time.time() - t_replay, 1)
+    timing["replay_s"] = round(time.time() - t0, 1)
+    ck.extra["replay"] = {"steps": rp.n_steps, "projections": rp.n_proj, "resynchronisations": rp.n_resync,
+                          "transitions_with_disagreement": len(rp.bad)}
+
+    # ---- 6. longer random behaviours over larger alphabets (tlc -simulate), replayed the same way
+    t0 = time.time()
+    sc = sim_constants(ck)
+    cfg = impl_cfg(sc, refine=False).replace("SPECIFICATION ImplSpec", "SPECIFICATION SimSpec").replace(
+        "CONSTRAINT Bounded\n", "") + f"CONSTANTS Depth = {sc['depth']}\n"
+    r = ck.tlc("DesignSpaceSim", cfg, workers=1, timeout=900, simulate=f"num={sc['num']}", depth=sc["depth"] + 2,
+               seed=ck.seed, count=False, coverage=False)
+    behaviours, cur = [], []
+    for v in r.printed():
+        if isinstance(v, tuple) and len(v) == 3 and v[0] == "STEP":
+            if v[1] == 1:
+                cur = []
+                behaviours.append(cur)
+            cur.append(v[2])
+    behaviours = [b for b in behaviours if len(b) == sc["depth"]]
+    if len(behaviours) != sc["num"]:
+        raise MachineryError(f"only {len(behaviours)} simulated behaviours parsed")
+    sim_states = {}
+    for b in behaviours:
+        for st in b:
+            sim_states.setdefault(absstate(st), (st["vars"], st["intNorm"]))
+    new = [v for k, v in sim_states.items() if k not in views]
+    if new:
+        views.update(views_for(ck, sc, new, "sim"))
+    rs = Replayer(ck, DesignSpace, views)
+    for b in behaviours:
+        steps, src = [], EMPTY
+        for st in b:
+            steps.append((None, st["lbl"][0], tuple(st["lbl"][1:]), src, st))
+            src = st
+        hist = rs.run(steps, "simulation")
+        if len(ck.samples) < 6:
+            ck.sample({"simulated_behaviour": hist})
+    timing["simulation_s"] = round(time.time() - t0, 1)
+    ck.extra["simulation"] = {"behaviours": len(behaviours), "depth": sc["depth"], "steps": rs.n_steps,
+                              "abstract_states_not_in_graph": len(new), "resynchronisations": rs.n_resync}
     ck.extra["timing"] = timing
-    ck.extra["replay"] = {"steps": n_steps, "projections": n_proj, "resynchronisations": n_resync,
-                          "transitions_with_disagreement": len(bad)}
     ck.assumptions += [
         "exact slice: finite bounds in {0,2,4}, probe vectors and values on the 1/8 lattice (TLC checks that no division is inexact)",
         "the current value may leave the bounds after set_lower_bound/set_upper_bound (the code allows it); its normalised image is the affine image",
@@ -565,7 +662,18 @@ def run(ck: Check):
         "check_membership: bounds only (integrality is checked by the code for dict input only and is not part of the property)",
         "set_current_value(dict) with a partial dict, set_*_bound with lb > ub (documented to raise) are not in the alphabet",
         "after a reported disagreement the object is rebuilt from the abstract state (caches refilled according to the Impl state)",
+        "exhaustive = every transition of the depth-bounded DesignSpaceImpl graph was executed on a real DesignSpace; the simulated behaviours are a sample",
     ]
+
+
+def sim_constants(ck: Check):
+    if ck.thorough:
+        return dict(nnames=4, maxvars=3, templates=[1, 2, 3, 4, 5, 6], lbvals=[0, 16], ubvals=[16, 32], infbounds=True,
+                    cur=["lo", "hi"], level=100, vias=["add", "extend", "from"], forms=["array", "dict"],
+                    qkinds=["normalize", "unnormalize", "round", "project"], depth=12, num=400)
+    return dict(nnames=4, maxvars=3, templates=[1, 2, 3, 4, 5, 6], lbvals=[0, 16], ubvals=[16, 32], infbounds=True,
+                cur=["lo", "hi"], level=100, vias=["add", "extend", "from"], forms=["array", "dict"],
+                qkinds=["normalize", "unnormalize", "round", "project"], depth=10, num=60)
 
 
 if __name__ == "__main__":
